@@ -105,6 +105,7 @@ type Interp struct {
 	nowCount   int
 	lastNow    *Term
 	constCache map[*ssa.Const]Value
+	boxes      []Value
 }
 
 func NewInterp(cfg *Config, ex *Explorer) *Interp {
@@ -125,6 +126,7 @@ func (in *Interp) resetPath() {
 	in.cur = nil
 	in.nowCount = 0
 	in.lastNow = nil
+	in.boxes = nil
 }
 
 func unsupported(format string, a ...any) {
